@@ -58,7 +58,7 @@ def gen(rng, n):
             d["SPURIOUS"] = rng.choice([20, 100, 300])
         if rng.chance(1, 4):
             d["SEND_BLOCK"] = rng.choice([50, 300])
-        m = rng.below(7)
+        m = rng.below(8)
         if m == 1:      # blocked writers: small windows, slow readers
             d["STREAM_RWND"] = rng.choice([1, 100, 1500, 6000])
             if rng.chance(1, 2):
@@ -99,6 +99,18 @@ def gen(rng, n):
             d["END_MODE"] = 1
             if rng.chance(1, 3):
                 d["CLOSE_AT_US"] = rng.choice([12000, 40000])
+        elif m == 7:    # close while writers are blocked on flow control / openers on the stream limit
+            d["NUNI"] = rng.range(1, 3)
+            d["STREAM_RWND"] = rng.choice([100, 1500])
+            d["STREAM_BYTES"] = 20000
+            d["WRITE_CHUNK"] = rng.choice([700, 4000, 100000])
+            d["READ_MAX"] = rng.choice([800, 4096])
+            d["READ_DELAY_US"] = 30000
+            d["END_MODE"] = rng.choice([0, 2, 3, 4])
+            d["CLOSE_AT_US"] = rng.choice([30000, 60000, 100000, 150000])
+            if rng.chance(1, 2):
+                d["MAX_UNI"] = 1
+            d["HANG_OPS"] = rng.below(32)
         if d.get("END_MODE", 0) == 1:
             d.pop("NDGRAM", None)
             d.pop("HANG_OPS", None)
